@@ -2,9 +2,12 @@
 # usage: tools/replay_roundtrip.sh <seeded id>...
 # For each seeded defect: apply it to /repo, run the quick check of its property, replay the reported
 # file in a fresh process (must reproduce: exit 1 and a "reproduced:" line), revert /repo.
+# Runs on a broken /repo must not replace the evidence of the unchanged tree in /verif/evidence.
+export VERIF_EVIDENCE_DIR=$(mktemp -d /var/tmp/seeded-evidence.XXXXXX)
+trap 'rm -rf "$VERIF_EVIDENCE_DIR"' EXIT
 cd /repo || exit 2
 if [ -n "$(git status --porcelain)" ]; then echo "/repo not clean"; exit 2; fi
-trap 'git -C /repo checkout -- . ; git -C /repo clean -fdq -- broker aldrin core 2>/dev/null' EXIT
+trap 'rm -rf "$VERIF_EVIDENCE_DIR"; git -C /repo checkout -- . ; git -C /repo clean -fdq -- broker aldrin core 2>/dev/null' EXIT
 for id in "$@"; do
   prop=${id%%-*}
   git -C /repo apply /verif/seeded/$id/patch.diff || { echo "$id: patch does not apply"; continue; }
